@@ -343,3 +343,23 @@ package htlcswitch
 //@   loop * havoc
 //@   site call deleteResolutionMsg: assert called(LookupOpenCircuit) && ret(LookupOpenCircuit) == nil
 //@   site call LookupOpenCircuit: assert arg(1).HtlcID == resMsg.HtlcIndex
+//@
+//@ // ---- replaying a forwarding package: every Add is handled under ITS index in the package (the index the ack filter,
+//@ // ---- the forward filter and the AddRef speak about), not under its position among the not-yet-acked ones (finding F17)
+//@ func (l *channelLink) processRemoteAdds
+//@   props C08 C07
+//@   loop * havoc
+//@   let K = any(k)
+//@   loop 0 invariant len(unackedIdxs) == len(unackedAdds) && len(unackedAdds) == len(decodeReqs) &&
+//@        (0 <= K && K < len(unackedAdds) ==> 0 <= unackedIdxs[K] && unackedIdxs[K] < len(fwdPkg.Adds) &&
+//@          dynptr(fwdPkg.Adds[unackedIdxs[K]].UpdateMsg, *lnwire.UpdateAddHTLC) == unackedAdds[K])
+//@   loop 1 invariant len(unackedIdxs) == len(unackedAdds) &&
+//@        (0 <= K && K < len(unackedAdds) ==> 0 <= unackedIdxs[K] && unackedIdxs[K] < len(fwdPkg.Adds) &&
+//@          dynptr(fwdPkg.Adds[unackedIdxs[K]].UpdateMsg, *lnwire.UpdateAddHTLC) == unackedAdds[K])
+//@   site call SourceRef as add-handled-under-its-package-index: assert rangeindex + 1 == K ==>
+//@        arg(1) < len(fwdPkg.Adds) && dynptr(fwdPkg.Adds[arg(1)].UpdateMsg, *lnwire.UpdateAddHTLC) == update
+//@   // a forwarding package holds the Adds of one commitment (at most 483): its indexes fit the 16-bit reference type
+//@   site call append nth 1 as package-index-fits-16-bits: domain len(fwdPkg.Adds) <= 65536
+//@   site call Contains nth 0: assert arg(1) == wrap(rangeindex + 1, 16)
+//@   site call Contains nth 1 as forward-filter-read-under-package-index: assert rangeindex + 1 == K ==> arg(1) == unackedIdxs[K]
+//@   site call Set as forward-filter-set-under-package-index: assert rangeindex + 1 == K ==> arg(1) == unackedIdxs[K]
